@@ -7,6 +7,7 @@ package worker
 import (
 	"bytes"
 	"context"
+	"crypto/sha256"
 	"encoding/base64"
 	"encoding/json"
 	"fmt"
@@ -43,6 +44,8 @@ type c13Case struct {
 	Seed     int64       `json:"seed,omitempty"`
 	Redirect string      `json:"redirect,omitempty"` // url: "<status>;<kind>" - the backend answers the handshake with this redirect
 	Then     string      `json:"then,omitempty"`     // url: after the open, the backend drops the websocket ("drop-abrupt" | "drop-graceful") and the client keeps using the session
+	BodyLen  int         `json:"body_len,omitempty"` // nonshim: generate a body of this many bytes from Seed instead of B64
+	Chunked  bool        `json:"chunked,omitempty"`  // nonshim: send the body with Transfer-Encoding: chunked
 	N        int         `json:"n,omitempty"`        // burst: concurrent goroutines
 	M        int         `json:"m,omitempty"`        // burst: opens per goroutine
 	Info     bool        `json:"info,omitempty"`     // routing of this path is library-defined: observed, not judged
@@ -331,8 +334,32 @@ func c13NonShim(c c13Case, h http.Handler, w *c13Wrapped, dials *c13Dials, b *sh
 	w.mu.Lock()
 	w.resp[c.ID] = resp
 	w.mu.Unlock()
+	if c.BodyLen > 0 {
+		body = make([]byte, c.BodyLen)
+		rand.New(rand.NewSource(c.Seed ^ 0x5eed)).Read(body)
+	}
 	hdr := append([][2]string{{"X-Verif-Id", c.ID}}, c.Headers...)
 	raw := shimRaw(c.Method, c.Target, c.Host, hdr, body)
+	if c.Chunked {
+		var cb bytes.Buffer
+		fmt.Fprintf(&cb, "%s %s HTTP/1.1\r\nHost: %s\r\n", c.Method, c.Target, c.Host)
+		for _, kv := range hdr {
+			fmt.Fprintf(&cb, "%s: %s\r\n", kv[0], kv[1])
+		}
+		cb.WriteString("Transfer-Encoding: chunked\r\n\r\n")
+		for at := 0; at < len(body); {
+			n := 1 + rng.Intn(1<<20)
+			if at+n > len(body) {
+				n = len(body) - at
+			}
+			fmt.Fprintf(&cb, "%x\r\n", n)
+			cb.Write(body[at : at+n])
+			cb.WriteString("\r\n")
+			at += n
+		}
+		cb.WriteString("0\r\n\r\n")
+		raw = cb.Bytes()
+	}
 	req, err := shimParse(raw)
 	ref, _ := shimParse(raw)
 	if err != nil {
@@ -380,7 +407,7 @@ func c13NonShim(c c13Case, h http.Handler, w *c13Wrapped, dials *c13Dials, b *sh
 		diffs = append(diffs, fmt.Sprintf("headers %v -> %v", c13Hdr(ref.Header), c13Hdr(seen.header)))
 	}
 	if !bytes.Equal(seen.body, body) {
-		diffs = append(diffs, fmt.Sprintf("body %d bytes -> %d bytes", len(body), len(seen.body)))
+		diffs = append(diffs, fmt.Sprintf("body %d bytes (sha256 %x…) -> %d bytes (sha256 %x…) at the wrapped handler", len(body), sha256.Sum256(body), len(seen.body), sha256.Sum256(seen.body)))
 	}
 	if a.Status != resp.status {
 		diffs = append(diffs, fmt.Sprintf("response status %d -> %d", resp.status, a.Status))
